@@ -482,7 +482,9 @@ func ruleGroupHash(c *Ctx, rule string) {
 	g := fn.Params[0].Name()
 	// sort.Slice(X, less): X and the slice indexed in less are the same; the iteration ranges over X
 	var sortCall *ssa.Call
-	for _, ci := range callsIn(fn, func(ci ssa.CallInstruction) bool { return calleeName(ci) == "sort.Slice" || calleeName(ci) == "sort.SliceStable" }) {
+	for _, ci := range callsIn(fn, func(ci ssa.CallInstruction) bool {
+		return calleeName(ci) == "sort.Slice" || calleeName(ci) == "sort.SliceStable"
+	}) {
 		sortCall = ci.(*ssa.Call)
 	}
 	if sortCall == nil {
@@ -504,6 +506,15 @@ func ruleGroupHash(c *Ctx, rule string) {
 			px := strings.TrimPrefix(strings.SplitN(x, "[", 2)[0], "^")
 			py := strings.TrimPrefix(strings.SplitN(y, "[", 2)[0], "^")
 			okCmp = strings.HasSuffix(x, ".Index") && strings.HasSuffix(y, ".Index") && px == py && (px == sorted || strings.TrimPrefix(px, g+".") == strings.TrimPrefix(sorted, g+".")) && comparesSameSlice(less, sortCall, fn)
+			if !okCmp && strings.HasSuffix(x, ".Index") && strings.HasSuffix(y, ".Index") {
+				// the comparator may index a local alias of the sorted slice (nodes := g.Nodes; sort.Slice(nodes, ...)): both
+				// indexed slices and the sorted one must be the same value once aliases are followed
+				sx, sy := indexedSliceOf(b.X), indexedSliceOf(b.Y)
+				if sx != nil && sy != nil {
+					cs := pathOf(canonValue(sortCall.Common().Args[0]))
+					okCmp = cs != "" && !strings.Contains(cs, "%") && pathOf(canonValue(sx)) == cs && pathOf(canonValue(sy)) == cs
+				}
+			}
 		})
 	}
 	c.Ok(rule, "group hash comparator orders the sorted slice itself by node index", shortPos(c.P, sortCall), okCmp, "sort.Slice("+sorted+", "+cmpDetail+")")
@@ -679,7 +690,9 @@ func ruleJSONHashCheck(c *Ctx, rule string) {
 	c.Ok(rule, "JSON chain info is accepted only if the embedded hash is empty or equals the recomputed hash", c.P.Pos(fn.Pos()), ok && n > 0, fmt.Sprintf("%d success return(s)", n))
 	// the recomputation happens after all hashed fields were decoded: HashString call is dominated by the stores
 	var hs *ssa.Call
-	for _, ci := range callsIn(fn, func(ci ssa.CallInstruction) bool { return strings.HasSuffix(calleeName(ci), "common/chain.Info).HashString") }) {
+	for _, ci := range callsIn(fn, func(ci ssa.CallInstruction) bool {
+		return strings.HasSuffix(calleeName(ci), "common/chain.Info).HashString")
+	}) {
 		hs = ci.(*ssa.Call)
 	}
 	if hs != nil {
@@ -745,4 +758,25 @@ func ruleHashedFieldsMirrored(c *Ctx, rule string) {
 			c.Ok(rule, fnShort(fn)+" decodes hashed field "+f, c.P.Pos(fn.Pos()), have[f], "")
 		}
 	}
+}
+
+// indexedSliceOf: for a value of the form s[i].F (or (*s[i]).F), the slice s.
+func indexedSliceOf(v ssa.Value) ssa.Value {
+	for d := 0; d < 6 && v != nil; d++ {
+		switch x := stripConv(v).(type) {
+		case *ssa.UnOp:
+			v = x.X
+		case *ssa.FieldAddr:
+			v = x.X
+		case *ssa.Field:
+			v = x.X
+		case *ssa.IndexAddr:
+			return x.X
+		case *ssa.Index:
+			return x.X
+		default:
+			return nil
+		}
+	}
+	return nil
 }
